@@ -170,8 +170,20 @@ def _shapes(P, R):
             else:
                 R.violate("b", "propagate:early-exit", "the loop over further dependents can stop early", pi)
     rm = [c for c in pi.calls() if c.resolved == PN + "::remove_justifications_with_premise" and c.bb in pi.normal_blocks()]
-    if rm and fmt_sym(pi.sym_operand(rm[0].args[1]), maxdepth=4) == "premise_handle" and all(pi.dominates(rm[0].bb, c.bb) for c in rec):
-        R.hold("b", "the dependent first loses the justifications resting on the lost premise", fn=pi)
+    extra = []
+    if rm:
+        for g in A.guards_of(pi, rm[0].bb):
+            txt = fmt_sym(g["cond"], maxdepth=8)
+            core = strip(g["cond"])
+            lookup = ("get_mut(self.nodes_by_handle, dependent_handle)" in txt or "get(self.nodes_by_handle, dependent_handle)" in txt or "contains_key(self.nodes_by_handle, dependent_handle)" in txt)
+            if lookup and (core[0] == "discr" and strip(core[1])[0] == "call" or core[0] == "call" and core[1].endswith(("is_some", "is_none", "contains_key"))):
+                continue
+            extra.append("%s = %s" % (txt[:80], g["polarity"]))
+    if extra:
+        R.violate("b", "propagate:remove-conditional",
+                  "propagate_invalidation removes the justifications resting on the lost premise only under %s: a dependent that exists but fails that test keeps a justification whose premise was invalidated, and is reported proven again after an unrelated re-proof" % extra, pi, rm[0].line)
+    elif rm and fmt_sym(pi.sym_operand(rm[0].args[1]), maxdepth=4) == "premise_handle" and all(pi.dominates(rm[0].bb, c.bb) for c in rec):
+        R.hold("b", "the dependent first loses the justifications resting on the lost premise (unconditionally, whenever its node exists)", fn=pi)
     else:
         R.violate("b", "propagate:remove", "propagate_invalidation does not remove the justifications resting on the lost premise before deciding to recurse", pi)
     # add_justification re-validates; lookup filters on valid
